@@ -1,12 +1,13 @@
 #!/bin/bash
 # MANIFEST.setup_cmd: build the framework from files on disk only (offline).
 set -e
-cd /verif
+cd "$(dirname "$0")"
+HERE=$(pwd)
 export CARGO_NET_OFFLINE=true
 mkdir -p .build
 python3 - <<'PY'
-import sys
-sys.path.insert(0, '/verif')
+import sys, os
+sys.path.insert(0, os.getcwd())
 from vlib import core
 st = core.build_coq()
 print("coq build rc", st["rc"], "vos", len(st["vos"]), "wall", st.get("wall_s"))
